@@ -125,7 +125,18 @@ def streams(seed, tier):
         st = state(float=[fbits(4.0)], cfg=cfg(maxf=hi, minf=lo))
         cases.append(case(rng.randrange(2), 7, base * 2, [st], tape(rng)))
         cases.append(case(rng.randrange(2), 11, base * 2, [st, [], S("FLOAT.RAND"), 0, [], 0], tape(rng)))
-    for nb in (0, 1, 11, 5, 15, 1, 15, 11):       # tables of equal size and different names follow each other
+    # a generator reads ITS OWN fields only: a valid INTEGER interval with the FLOAT interval / new-name probability invalid, and vice versa
+    for (lo, hi) in RANGES[:4]:
+        for (flo, fhi, pn) in ((fbits(2.0), fbits(1.0), 0.001), (NAN, fbits(1.0), 0.001), (NINF, INF, 0.001), (fbits(-1.0), fbits(1.0), 7.0), (fbits(-1.0), fbits(1.0), float("nan"))):
+            st = state(int=[4], cfg=cfg(maxi=hi, mini=lo, maxf=fhi, minf=flo, pnew=pn))
+            cases.append(case(rng.randrange(2), 8, base, [st], tape(rng)))
+            cases.append(case(rng.randrange(2), 11, base, [st, [], S("INTEGER.RAND"), 0, [], 0], tape(rng)))
+    for (lo, hi) in FRANGES[:3]:
+        for (ilo, ihi, pn) in ((5, 5, 0.001), (7, -7, 0.001), (-10, 10, -3.0), (2147483647, -2147483648, 0.001)):
+            st = state(float=[fbits(4.0)], cfg=cfg(maxf=hi, minf=lo, maxi=ihi, mini=ilo, pnew=pn))
+            cases.append(case(rng.randrange(2), 7, base, [st], tape(rng)))
+            cases.append(case(rng.randrange(2), 11, base, [st, [], S("FLOAT.RAND"), 0, [], 0], tape(rng)))
+    for nb in (0, 1, 11, 5, 15, 1, 15, 11, 21, 22):       # tables of equal size and different names follow each other; a self-defined name; odd keys
         st = state(name=["keep"], bind=BINDS[nb])
         cases.append(case(rng.randrange(2), 10, base * 3, [st], tape(rng)))
         cases.append(case(rng.randrange(2), 11, base * 3, [st, [], S("NAME.RANDBOUNDNAME"), 0, [], 0], tape(rng)))
